@@ -1,5 +1,5 @@
 """C07 - a failing or slow host never harms the others; time-outs bound the run."""
-import os, json
+import os, json, time
 import vlib, schedeng
 
 PROP = "C07"
@@ -153,6 +153,127 @@ def judge(run, n, f, tconn, tcmd, behs, hosts, maximal_progress):
     return None
 
 
+# ---------------------------------------------------------------------------------------------
+# real transports, real kernel, real time: exec children and an rsh peer on loopback
+def _rsh_server(addrs):
+    """scripted rsh daemons on <addr>:514 ; mode 'ok' acknowledges and prints a line, 'hang' accepts the
+    request but never acknowledges (a host that hangs while connecting)"""
+    import socket, threading
+
+    def rdz(c):
+        b = b""
+        while True:
+            x = c.recv(1)
+            if not x or x == b"\0":
+                return b
+            b += x
+
+    def back(addr, port):
+        for lp in range(1023, 511, -1):
+            s2 = socket.socket()
+            s2.setsockopt(socket.SOL_SOCKET, socket.SO_REUSEADDR, 1)
+            try:
+                s2.bind(("127.0.0.1", lp)); s2.connect((addr, port)); return s2
+            except OSError:
+                s2.close()
+        return None
+
+    def serve(c, peer, mode, name):
+        try:
+            port = rdz(c)
+            e = back(peer[0], int(port)) if port and int(port) > 0 else None
+            rdz(c); rdz(c); rdz(c)
+            if mode == "hang":
+                time.sleep(60)
+                return
+            c.sendall(b"\0"); c.sendall(b"hello from " + name.encode() + b"\n")
+            if e:
+                e.close()
+            c.close()
+        except Exception:
+            pass
+
+    socks = []
+    for addr, mode in addrs:
+        l = socket.socket()
+        l.setsockopt(socket.SOL_SOCKET, socket.SO_REUSEADDR, 1)
+        l.bind((addr, 514)); l.listen(16)
+        socks.append(l)
+
+        def loop(l=l, mode=mode, addr=addr):
+            while True:
+                try:
+                    c, peer = l.accept()
+                except OSError:
+                    return
+                threading.Thread(target=serve, args=(c, peer, mode, addr), daemon=True).start()
+        threading.Thread(target=loop, daemon=True).start()
+    return socks
+
+
+def real_part(ctx, quick):
+    """returns (runs, problems): problems are (case, expected, observed, text)"""
+    import realeng
+    real = realeng.Real(ctx, tag="real07")
+    real.build_module(os.path.join(vlib.REPO, "src/modules/xrcmd.c"), "xrcmd")
+    problems, nruns = [], 0
+    # R1: exec children; one hung host among many healthy ones, concurrent starts
+    for rep in range(2 if quick else 10):
+        nh = 41
+        hung = {7} if rep % 2 == 0 else {3, 29}
+        script = "case %%h in %s) sleep 30;; *) echo out-%%h;; esac" % "|".join("h%d" % k for k in sorted(hung))
+        t0 = time.time()
+        rc, o, e = real.run(["-R", "exec", "-f", "32", "-u", "2", "-w", "h[0-%d]" % (nh - 1), "sh", "-c", script], timeout=25)
+        dt = time.time() - t0
+        nruns += 1
+        case = {"transport": "exec", "hosts": nh, "hung": sorted(hung), "command_timeout": 2}
+        if rc == -999:
+            problems.append((case, "pdsh ends within command timeout + watchdog period", "still running after 25 s", "pdsh did not terminate although the hung hosts are covered by -u 2")); continue
+        outl = set(o.decode("latin-1").split("\n"))
+        errt = e.decode("latin-1")
+        for k in range(nh):
+            if k in hung:
+                if ("h%d: command timeout" % k) not in errt:
+                    problems.append((case, "h%d reported as timed out" % k, errt[-300:], "hung host h%d is not reported on standard error under its own name" % k)); break
+            else:
+                if ("h%d: out-h%d" % (k, k)) not in outl:
+                    problems.append((case, "h%d: out-h%d" % (k, k), (o[-200:] + e[-300:]).decode("latin-1"), "healthy host h%d did not get its output relayed (another host hanging harmed it)" % k)); break
+                if ("h%d: command timeout" % k) in errt:
+                    problems.append((case, "no report for healthy h%d" % k, errt[-300:], "healthy host h%d was reported as timed out" % k)); break
+        if dt > 2 + 2 + 4:
+            problems.append((case, "<= 8 s", "%.1f s" % dt, "the run took %.1f s although the command timeout is 2 s and the watchdog period 2 s" % dt))
+    # R2: rsh over loopback: one daemon never acknowledges (hang while connecting), connect timeout 1
+    try:
+        socks = _rsh_server([("127.7.3.1", "ok"), ("127.7.3.2", "hang"), ("127.7.3.3", "ok")])
+    except OSError as ex:
+        ctx.notes.append("rsh loopback part skipped: %s" % ex)
+        return nruns, problems
+    try:
+        for rep in range(1 if quick else 4):
+            t0 = time.time()
+            rc, o, e = real.run(["-R", "rsh", "-t", "1", "-w", "127.7.3.[1-3]", "true"], timeout=25)
+            dt = time.time() - t0
+            nruns += 1
+            case = {"transport": "rsh", "hosts": ["127.7.3.1 ok", "127.7.3.2 never acknowledges", "127.7.3.3 ok"], "connect_timeout": 1}
+            ot, et = o.decode("latin-1"), e.decode("latin-1")
+            if rc == -999:
+                problems.append((case, "pdsh ends within connect timeout + watchdog period", "still running after 25 s", "a host that hangs while connecting (rsh handshake never acknowledged) is never abandoned: pdsh did not terminate")); continue
+            for a in ("127.7.3.1", "127.7.3.3"):
+                if ("%s: hello from %s" % (a, a)) not in ot:
+                    problems.append((case, "output of %s" % a, (ot + et)[-300:], "healthy host %s did not get its output relayed" % a)); break
+            if "127.7.3.2: " not in et:
+                problems.append((case, "127.7.3.2 reported", et[-300:], "the host hanging in connect is not reported on standard error under its own name"))
+            if dt > 1 + 2 + 4:
+                problems.append((case, "<= 7 s", "%.1f s" % dt, "the run took %.1f s although the connect timeout is 1 s and the watchdog period 2 s" % dt))
+    finally:
+        for l in socks:
+            try:
+                l.close()
+            except OSError:
+                pass
+    return nruns, problems
+
+
 def run(ctx):
     ctx.gen_params()
     ctx.prove()
@@ -222,9 +343,14 @@ def run(ctx):
                             "events": " ".join(ru.sys_events())[:500], "exit": ru.exit})
         if bad >= 5:
             break
+    nreal, rprob = real_part(ctx, quick)
+    for case, exp, obs, text in rprob[:3]:
+        bad += 1
+        ctx.violation("input", case=case, expected=exp, observed=obs, engine="exec/rsh", detail=text)
     have_input = any(v["kind"] != "no-failing-input-found" for v in ctx.violations)
     vlib.report_proof_break(ctx, have_input)
     cov = vlib.proof_coverage(ctx, {
+        "real_transport_runs": nreal,
         "evaluations": len(runs), "distinct_nontrivial": len(set(c for c in cases if len(c) > 80)),
         "traces_validated_against_impl": nacc,
         "rule": "runs of the whole pdsh program under the controlled scheduler with a virtual clock and a scripted transport: 1..6 targets, each assigned one of {ok (plain / non-zero status / killed / stdout or stderr closing early), refuse, hang in connect, hang mid-command}, connect timeout 1..5, command timeout 0..4, fanout 1..N+1, seeded random schedules, 0-2 spurious wake-ups; three quarters of the runs let time pass only when every thread is blocked (deadlines are judged there), the rest tick at random points; every trace must be a run of the Coq timed transition system and is judged for isolation, reporting, deadlines and termination; distinct = distinct event trace",
